@@ -541,12 +541,19 @@ type kdRunStats struct {
 	pruned          int64 // queries (user-defined type) that visited fewer nodes than stored
 	notTight, eqRgt int64
 	maxDepth        int
+	onlyKnown       bool
 }
 
 // kdRunHistory bulk-builds bulk, Inserts ins one by one, checking the
 // structure after every operation and running the full query sweep at the end
 // (every prefix of a history is itself an enumerated history).
-func kdRunHistory(t *vlib.T, sp *kdSpace, stock bool, bulk, ins []int, bndNew, bndIns, doSweep bool, ch *chooser, st *kdRunStats) {
+const (
+	kdFull    = iota // structure, Do, Contains, query sweep, DoBounded
+	kdNoSweep        // everything but the query sweep
+	kdLite           // structure and DoBounded only
+)
+
+func kdRunHistory(t *vlib.T, sp *kdSpace, stock bool, bulk, ins []int, bndNew, bndIns bool, mode int, ch *chooser, st *kdRunStats) {
 	be := &kdBackend{stock: stock, d: sp.d}
 	bp := make([][]float64, len(bulk))
 	for i, x := range bulk {
@@ -579,12 +586,14 @@ func kdRunHistory(t *vlib.T, sp *kdSpace, stock bool, bulk, ins []int, bndNew, b
 	if sh.maxDepth > st.maxDepth {
 		st.maxDepth = sh.maxDepth
 	}
-	kdCheckDo(t, tree, be, sh, ctx)
-	kdCheckContains(t, tree, be, bounded, sp.queries, ctx)
+	if mode != kdLite {
+		kdCheckDo(t, tree, be, sh, ctx)
+		kdCheckContains(t, tree, be, bounded, sp.queries, ctx)
+	}
 	if t.Failed() {
 		return
 	}
-	if doSweep {
+	if mode == kdFull {
 		ix := &kdIx{tree: tree, be: be}
 		before := be.ctr.dist
 		s0 := st.sw.searches
@@ -599,16 +608,19 @@ func kdRunHistory(t *vlib.T, sp *kdSpace, stock bool, bulk, ins []int, bndNew, b
 	kdCheckDoBounded(t, tree, be, sp.boxes, &st.bs, ctx)
 }
 
-// finish reports the known DoBounded defect (once, and only if nothing else
-// failed, so that it can never hide an unclassified violation) and escalates
-// the number of attempts for the confirmation re-runs.
+// finish reports the known DoBounded defect once per case as a sub-violation
+// with its own class (it can never hide an unclassified violation) and
+// escalates the number of attempts for the confirmation re-runs.
 func (st *kdRunStats) finish(t *vlib.T, group, key string) {
 	t.Count("kd_dobounded_known_skips", st.bs.knownSkips)
-	if !t.Failed() && st.bs.knownSkips > 0 {
-		t.FailClass("kdtree-dobounded-skips-points-on-min-face", "%s (and %d further boxes/trees in this case)", st.bs.knownMsg, st.bs.knownSkips-1)
+	if st.bs.knownSkips > 0 {
+		classified(t, "dobounded", "kdtree-dobounded-skips-points-on-min-face", "%s (and %d further boxes/trees in this case)", st.bs.knownMsg, st.bs.knownSkips-1)
 	}
-	if t.Failed() {
+	if t.Failed() || st.bs.knownSkips > 0 {
 		markFailed(group, key)
+		if !t.Failed() {
+			knownOnly[group+"\x00"+key] = true // re-runs need structure and DoBounded only
+		}
 	}
 }
 
@@ -661,6 +673,7 @@ func genKD(d int, stock bool) func(g *vlib.G) {
 		sp := newKDSpace(d)
 		N := kdMaxPoints(g, d)
 		L := ipow(sp.side, d)
+		stockReps := vlib.Pick(g, 2, 3)
 		group := fmt.Sprintf("kd-%s-d%d", map[bool]string{false: "shapes", true: "stock"}[stock], d)
 		for j := 0; j <= N; j++ {
 			multisets(L, j, func(bulkv []int) {
@@ -676,13 +689,36 @@ func genKD(d int, stock bool) func(g *vlib.G) {
 							st := &kdRunStats{}
 							reps, esc := 1, false
 							if stock && len(bulk) >= 2 {
-								reps, esc = attempts(group, key, 3)
+								reps, esc = attempts(group, key, stockReps)
 							}
+							// A confirmation re-run of a case whose only failure was the
+							// known DoBounded defect re-checks structure and DoBounded only.
+							lite := knownOnly[group+"\x00"+key] && !replaying()
 							for rep := 0; rep < reps && !t.Failed() && !(esc && st.bs.knownSkips > 0); rep++ {
 								for _, bnd := range []bool{false, true} {
+									// Searches never read Bounding: beyond d=2 the sweep runs on one
+									// of the two (structurally checked) trees only; for random builds
+									// the swept tree alternates with the repetition.
+									mode := kdFull
+									if d > 2 {
+										swept := !bnd
+										if stock && reps > 1 {
+											swept = bnd == (rep%2 == 1)
+										} else if stock {
+											// fewer than two bulk points: the build is deterministic and
+											// the tree is the one swept by the kd-shapes group.
+											swept = false
+										}
+										if !swept {
+											mode = kdNoSweep
+										}
+									}
+									if lite {
+										mode = kdLite
+									}
 									ch := &chooser{}
 									for {
-										kdRunHistory(t, sp, stock, bulk, ins, bnd, bnd, true, ch, st)
+										kdRunHistory(t, sp, stock, bulk, ins, bnd, bnd, mode, ch, st)
 										if t.Failed() || stock || !ch.next() {
 											break
 										}
@@ -691,7 +727,11 @@ func genKD(d int, stock bool) func(g *vlib.G) {
 								// mixed flags: the tree keeps the bounding state it was created with.
 								if d <= 2 && len(ins) > 0 && !t.Failed() {
 									for _, bnd := range []bool{false, true} {
-										kdRunHistory(t, sp, stock, bulk, ins, bnd, !bnd, false, &chooser{}, st)
+										mode := kdNoSweep
+										if lite {
+											mode = kdLite
+										}
+										kdRunHistory(t, sp, stock, bulk, ins, bnd, !bnd, mode, &chooser{}, st)
 									}
 								}
 							}
